@@ -387,6 +387,9 @@ fn shapes(sk: &SecretKey, tier: Tier) -> Vec<Shape> {
     };
     // clean shapes
     add("1-slice-empty", vec![spec(Some(p.clone()), vec![])], Expect::Clean, p.clone(), vec![], Order::Ascending);
+    // many tiny transactions: few bytes on the wire, many elements in memory
+    add("1-slice-1400-one-byte-transactions", vec![spec(Some(p.clone()), (0..1400).map(|i| tx(1, i as u8)).collect())], Expect::Clean, p.clone(), vec![], Order::Ascending);
+    add("1-slice-3000-empty-transactions", vec![spec(Some(p.clone()), (0..3000).map(|_| tx(0, 0)).collect())], Expect::Clean, p.clone(), vec![], Order::CodingFirst);
     add("1-slice-one-tx-coding-first", vec![spec(Some(p.clone()), vec![tx(100, 1)])], Expect::Clean, p.clone(), vec![], Order::CodingFirst);
     add(
         "2-slices-full-and-small",
